@@ -9,6 +9,7 @@ from nbsym import engine as E
 
 ID = "C08"
 TITLE = "DenovoMCMC.fit / CallingMCMC.fit / PedigreeCallingMCMC.fit: on every path the numpy and the numba generator are seeded with random_seed before any RNG-consuming call, all chains/samples run after that single seeding, and the result is a function of (inputs, seed) only"
+TECHNIQUE = 'symbolic execution of the fit() drivers with the random generators as explicit state (seeded-before-first-draw on every path); assumption guard on RNG sources; NOT APPLICABLE clauses excluded'
 ENCODED = ["mchap.assemble.mcmc.DenovoMCMC.fit", "mchap.assemble.mcmc.DenovoMCMC._mcmc", "mchap.calling.classes.CallingMCMC.fit", "mchap.pedigree.classes.PedigreeCallingMCMC.fit",
            "mchap.application.call.program.call_sample_genotypes", "mchap.application.assemble.program.call_sample_genotypes"]
 STUBS = ["np.random.seed and mchap.jitutils.seed_numba -> recorders of (generator, seed)",
